@@ -119,6 +119,26 @@ func init() {
 			}
 		}
 		pool = append(pool, byteNeighbourhood([]string{"[1.5e+3,true]", " {\"a\":null} ", "\"\\n\"", "-0"})...)
+		// one stray byte at every distance up to 70 behind the value, in whitespace of every kind, followed by 0..16 more
+		// whitespace bytes (block-wise trailing checks), and the same in front of the value
+		for _, v := range []string{"1", "{}", "[1]", "\"s\"", "null"} {
+			for _, w := range []string{" ", "\n", "\r\n", "\t"} {
+				for k := 0; k <= 70; k++ {
+					ws := strings.Repeat(w, k)
+					for _, g := range []string{"2", "]", "}", "x", "\x00", ",", "\"", "\x0b"} {
+						for _, m := range []int{0, 1, 2, 3, 7, 8, 9, 16} {
+							if (k+m)%3 != 0 && !c.thorough() {
+								continue
+							}
+							pool = append(pool, []byte(v+ws+g+strings.Repeat(w, m)))
+						}
+					}
+					if k%7 == 0 {
+						pool = append(pool, []byte(ws+"x"+ws+v))
+					}
+				}
+			}
+		}
 		for len(cl) < len(pool) {
 			cl = append(cl, "neighbourhood")
 		}
